@@ -190,7 +190,7 @@ def modelable(case):
 
 
 def evaluate(ctx, name, cases, env, shard=1500):
-    """verdict triples (model agrees, spec code, spec rows) for every case, evaluated inside Coq"""
+    """verdicts (model agrees, spec code, spec rows, repair mask) for every case, evaluated inside Coq"""
     out = []
     for k in range(0, len(cases), shard):
         part = cases[k:k + shard]
@@ -202,10 +202,10 @@ def evaluate(ctx, name, cases, env, shard=1500):
         m = re.search(r"V\s*=\s*(.*?)\s*:\s*list", vcheck.norm(o))
         if not m:
             raise vcheck.Broken("could not find verdicts in Coq output", o[-2000:])
-        trip = re.findall(r"\(\s*(\d+),\s*(\d+),\s*(\d+)\s*\)", m.group(1))
+        trip = re.findall(r"\(\s*(\d+),\s*(\d+),\s*(\d+),\s*(\d+)\s*\)", m.group(1))
         if len(trip) != len(part):
             raise vcheck.Broken("verdict count mismatch (%d for %d cases)" % (len(trip), len(part)), o[-2000:])
-        out += [(int(a), int(b), int(c)) for a, b, c in trip]
+        out += [(int(a), int(b), int(c), int(d)) for a, b, c, d in trip]
     return out
 
 
@@ -215,3 +215,161 @@ def debug_case(ctx, case, env, name="debug"):
     v = HEADER + enc.T.text()
     v += "Eval vm_compute in run_model (fst %s).\nEval vm_compute in run_spec (fst %s).\nEval vm_compute in verdict %s.\n" % (n, n, n)
     return vcheck.coq_eval(ctx.work, name, v)
+
+
+# ---------------------------------------------------------------- classification of deviations from the specification
+# bit of the repair mask -> finding id.  A deviation is attributed to a defect when switching exactly that repair on in
+# the model makes the model coincide with the specification on that very case.
+MASK_BITS = [(1, "C03-kind"), (2, "C10-disjoint-empty"), (4, "C03-join-kind"), (8, "C03-bound-alias-nil"),
+             (16, "C03-oid"), (32, "C03-string-object")]
+ALL_BIT = 64
+
+
+def clause_interval(c):
+    return (c["PID"] != "" and c["PAnchorBinding"] == "") or (c["OID"] != "" and c["OAnchorBinding"] == "")
+
+
+def clause_spec3(c):
+    return c["S"] is not None and c["P"] is not None and c["O"] is not None
+
+
+def clause_has_alias(c):
+    return any(c[k] != "" for k in ("SAlias", "STypeAlias", "SIDAlias", "PAlias", "PAnchorAlias", "PIDAlias", "PLowerBoundAlias",
+                                    "PUpperBoundAlias", "OAlias", "OAnchorAlias", "OIDAlias", "OTypeAlias", "OLowerBoundAlias",
+                                    "OUpperBoundAlias"))
+
+
+def clause_names(c):
+    ks = ("SBinding", "SAlias", "STypeAlias", "SIDAlias", "PAlias", "PAnchorBinding", "PBinding", "PLowerBoundAlias",
+          "PUpperBoundAlias", "PIDAlias", "PAnchorAlias", "OBinding", "OAlias", "OTypeAlias", "OIDAlias", "OAnchorAlias",
+          "OAnchorBinding", "OLowerBoundAlias", "OUpperBoundAlias")
+    return set(c[k] for k in ks if c[k] != "")
+
+
+def static_classes(case):
+    """syntactic defect classes of a statement (classes whose repair is not modelled as a flag)"""
+    out = set()
+    cls = case["clauses"] or []
+    bound = False
+    for i, c in enumerate(cls):
+        if clause_interval(c):
+            out.add("C03-interval")
+        if clause_spec3(c):
+            if c["Optional"] and clause_has_alias(c):
+                out.add("C10-spec3-alias")
+            elif not c["Optional"] and bound:
+                out.add("C03-spec3-after-bound")
+        if clause_names(c):
+            bound = True
+    return out
+
+
+def classify(case, verdict):
+    """None when the implementation meets the specification on this case; otherwise (finding id | None, explanation)"""
+    a, b, n, mask = verdict
+    if b == 2:
+        return None
+    st = static_classes(case)
+    res = case["result"]["kind"]
+    singles = [fid for bit, fid in MASK_BITS if mask & bit]
+    if singles:
+        return singles[0], "switching on the repair of %s alone makes the model equal to the specification" % singles[0]
+    if "C03-spec3-after-bound" in st and res == "err":
+        return "C03-spec3-after-bound", "fully specified clause after bound ones: AppendTable error"
+    if "C10-spec3-alias" in st and (res == "err" or (res == "ok" and len(case["result"]["rows"]) < n)):
+        return "C10-spec3-alias", "fully specified OPTIONAL clause with alias: error or rows dropped"
+    if "C03-interval" in st and res in ("ok", "panic", "crash"):
+        if b == 1:
+            return "C03-interval-dup", "interval clause without anchor binding: one row per triple (same set of rows)"
+        return "C03-interval", "interval clause `\"id\"@[lb,ub]` without anchor binding"
+    if mask & ALL_BIT:
+        return "combination", "only all repairs together make the model equal to the specification"
+    return None, "unexplained"
+
+
+def open_findings(prop):
+    return {f["id"]: f for f in vcheck.known_findings(prop)}
+
+
+def load_corpus(prop):
+    path = os.path.join(vcheck.VERIF, "corpus", prop, "witnesses.jsonl")
+    if not os.path.exists(path):
+        return [], []
+    meta = [json.loads(l) for l in open(path) if l.strip() and not l.startswith("#")]
+    rows = hquery(["-mode", "replay", "-file", path])
+    return meta, rows
+
+
+def run_family(ctx, prop, gen_args, describe):
+    """shared body of c03 / c10: obligations are added by the caller"""
+    env = probe()
+    ctx.cov["store_probe"] = env["raw"]
+    findings = open_findings(prop)
+    # corpus (refutation witnesses) first
+    meta, crow = load_corpus(prop)
+    rows = hquery(["-mode", "gen", "-seed", str(ctx.seed)] + gen_args)
+    allrows = crow + rows
+    cases = [r for r in allrows if modelable(r)]
+    verd = evaluate(ctx, "cases_" + prop.lower(), cases, env)
+    byid = {}
+    nviol = 0
+    excused = {}
+    reproduced = set()
+    for r, v in zip(cases, verd):
+        if v[0] == 0:
+            nviol += 1
+            if nviol <= 5:
+                ctx.violation({"kind": "model-vs-implementation", "query": r["query"], "graph_texts": r["graph_texts"],
+                               "observed": r["result"], "explain": "the Coq planner model (vm_compute) and planner.Execute disagree"})
+            continue
+        cl = classify(r, v)
+        if cl is None:
+            continue
+        fid, why = cl
+        if fid == "combination":
+            excused[fid] = excused.get(fid, 0) + 1
+            continue
+        if fid is None or fid not in findings:
+            nviol += 1
+            if nviol <= 5:
+                ctx.violation({"kind": "implementation-vs-specification", "class": fid, "why": why, "query": r["query"],
+                               "graph_texts": r["graph_texts"], "observed": r["result"], "spec_rows": v[2]})
+            continue
+        excused[fid] = excused.get(fid, 0) + 1
+        if r.get("kind") == "corpus":
+            reproduced.add(fid)
+    # known findings: replayed witnesses that still deviate from the specification
+    for m, r in zip(meta, crow):
+        fid = m["finding"]
+        if fid in findings and fid in reproduced:
+            pass
+    for fid, f in sorted(findings.items()):
+        if fid in reproduced or excused.get(fid, 0) > 0:
+            ctx.known("%s site=%s class=%s (%d cases in this run)" % (fid, f.get("site", "?"), f.get("class", "?"), excused.get(fid, 0)))
+        else:
+            ctx.notes.append("finding %s no longer reproduces" % fid)
+    # generator health and coverage
+    okc = [r for r in rows if r["result"]["kind"] == "ok"]
+    empty = sum(1 for r in okc if not r["result"]["rows"])
+    errs = sum(1 for r in rows if r["result"]["kind"] not in ("ok",))
+    ctx.cov["evaluations"] = len(cases)
+    seen = set()
+    for r, v in zip(cases, verd):
+        if r["result"]["kind"] == "ok" and r["result"]["rows"]:
+            seen.add(vcheck.case_hash([r["query"], r["graphs"]]))
+    ctx.cov["distinct_nontrivial"] = len(seen)
+    ctx.cov["rule"] = ("one case = (graphs, SELECT text) executed by planner.Execute and by the Coq model and specification; "
+                       "non-trivial = the implementation returned at least one row; distinct by (statement text, graph contents)")
+    ctx.cov["samples"] = [{"query": r["query"], "graphs": r["graph_texts"], "rows": len(r["result"].get("rows") or [])} for r in rows[:3]]
+    ctx.cov["distribution"] = {
+        "generated": len(rows), "corpus": len(crow), "modelled": len(cases),
+        "by_kind": {k: sum(1 for r in rows if r.get("kind") == k) for k in sorted(set(r.get("kind") for r in rows))},
+        "outcomes": {k: sum(1 for r in rows if r["result"]["kind"] == k) for k in sorted(set(r["result"]["kind"] for r in rows))},
+        "empty_results": empty, "clauses": {str(n): sum(1 for r in cases if len(r["clauses"] or []) == n) for n in range(1, 6)},
+        "meets_spec": sum(1 for v in verd if v[1] == 2), "deviations_by_finding": excused,
+        "max_rows": max([len(r["result"].get("rows") or []) for r in rows] + [0]),
+    }
+    if rows and (errs > 0.3 * len(rows)):
+        ctx.broken("generator health: more than 30% of the generated statements end in an error", json.dumps(ctx.cov["distribution"]))
+    ctx.cov["describe"] = describe
+    return cases, verd
